@@ -70,7 +70,7 @@ func (n *NodeCredentials) Store(ctx context.Context, storage nodeenrollment.Stor
 	if opts.WithStorageWrapper != nil {
 		credsToStore = proto.Clone(n).(*NodeCredentials)
 
-		keyId, err := opts.WithStorageWrapper.KeyId(ctx)
+		keyId, err := storageWrapperKeyId(ctx, opts.WithStorageWrapper)
 		if err != nil {
 			return fmt.Errorf("(%s) error reading wrapper key id: %w", op, err)
 		}
